@@ -1081,6 +1081,11 @@ func oneCase(k *vlib.Case, kind string) {
 			cl := "fallback-with-valid-newest"
 			if len(vfs) > 0 && vfs[0].idx < 0 {
 				cl = "truncated-newest/fallback"
+				if !versionFileRe.MatchString(vfs[0].name) {
+					// the incomplete file that sorts first is not a version file written
+					// under its final name (e.g. a temporary file that the reader lists)
+					cl = "stray-file-shadows-cache/fallback"
+				}
 			}
 			report(cl, "never the fallback while a valid cached version exists", "a previously fetched version (new or newest earlier)", obsState)
 		case isFallback && earlier > 0:
